@@ -213,23 +213,6 @@ def h_unwrap_or(I, st, fr, e, c, a):
     return [(st, VTop("unwrap_or"), None)]
 
 
-def h_unwrap_or_default(I, st, fr, e, c, a):
-    """unwrap_or_default(): the payload, or the default of the result type (false / 0) for None."""
-    v = deref(I, st, a[0])
-    tyd = I.facts.ty(e["ty"]) if e.get("ty") is not None else {"k": "?"}
-    if tyd.get("k") == "bool":
-        dflt = FALSE
-    elif tyd.get("k") in ("uint", "int") or tyd.get("name") in ("usize", "u64", "u32"):
-        dflt = VNat(Poly.const(0))
-    else:
-        raise NotImplementedError("unwrap_or_default of " + str(tyd.get("k")))
-    if isinstance(v, VEnum):
-        if v.variant in ("None", "Err"):
-            return [(st, dflt, None)]
-        return [(st, v.payload[0], None)]
-    raise NotImplementedError("unwrap_or_default of " + type(v).__name__)
-
-
 def h_ok_or(I, st, fr, e, c, a):
     v = deref(I, st, a[0])
     if isinstance(v, VEnum):
@@ -595,7 +578,13 @@ def h_unwrap_or_default(I, st, fr, e, c, a):
             out.append((s, pl, None))
         else:
             tyd = I.facts.ty(e["ty"])
-            out.append((s, VNat(0) if tyd["k"] in ("uint", "int") or tyd["s"].endswith("::I") else VTop("default"), None))
+            if tyd["k"] == "bool":
+                dflt = FALSE
+            elif tyd["k"] in ("uint", "int") or tyd.get("s", "").endswith("::I"):
+                dflt = VNat(0)
+            else:
+                dflt = VTop("default")
+            out.append((s, dflt, None))
     return out
 
 
@@ -696,7 +685,6 @@ SIMPLE.update({
     "std::option::Option::<T>::and": h_opt_and,
     "std::option::Option::<T>::or": h_opt_or,
     "std::option::Option::<T>::zip": h_opt_zip,
-    "std::option::Option::<T>::unwrap_or_default": h_unwrap_or_default,
     "std::option::Option::<T>::is_some_and": h_is_some_and,
     "std::result::Result::<T, E>::is_ok_and": h_is_some_and,
     "std::option::Option::<T>::is_none_or": h_is_none_or,
